@@ -504,6 +504,11 @@ fn mutants(r: &Rendered, rng: &mut Rng) -> Vec<Mutant> {
                 if !still_valid && rng.chance(1, 4) {
                     with("unquoted-string", Some(format!("{}{} {}", indent, k, v.trim_matches('"').replace(' ', "_").replace("true", "t"))), true, false, &mut out);
                 }
+                if k == "file" && inner.ends_with("blacklist.txt") {
+                    // a list file that does not exist / cannot be opened is a validation fault, not an empty list
+                    with("missing-list-file", Some(format!("{}{} \"{}.does-not-exist\"", indent, k, inner)), false, false, &mut out);
+                    with("missing-list-file", Some(format!("{}{} \"{}/\"", indent, k, inner)), false, false, &mut out);
+                }
                 match k {
                     "mode" => with("bad-enum", Some(format!("{}{} \"blok\"", indent, k)), false, false, &mut out),
                     "load_balancer_mode" => with("bad-enum", Some(format!("{}{} \"fastest\"", indent, k)), false, false, &mut out),
@@ -650,5 +655,5 @@ pub fn main(args: &Args) {
         r
     });
     let total = Report::merge_all(reports);
-    total.write(out, "configurations generated from a model (address, port, threads, timeout, websocket, blacklist file+mode, log level/console/file, cache size in every unit + time, 0..4 hosts, 0..8 routes per host of every type incl. multi-pattern, proxy lists, load-balancer mode), each rendered in 3 layouts (random indentation incl. tabs, comments, blank lines, key and section order, quoting, CRLF, two of them split into included files incl. nested includes); then every single-fault mutant of one rendering (missing brace, missing value, bad number, unknown unit, non-ASCII in number/unit, bad boolean, unterminated quote, unquoted string, bad enum, out-of-range, negative). distinct = distinct models; every model is non-trivial (it is compared field by field)", None, &["`#` and `\"` inside values are not generated (the syntax has no escape)", "LoadBalancer.lcg is excluded from the comparison (time-seeded)", "include paths are absolute (the loader resolves them against the process's working directory)", "for a missing closing brace any line at or after the fault is accepted (the error can only surface later)"]);
+    total.write(out, "configurations generated from a model (address, port, threads, timeout, websocket, blacklist file+mode, log level/console/file, cache size in every unit + time, 0..4 hosts, 0..8 routes per host of every type incl. multi-pattern, proxy lists, load-balancer mode), each rendered in 3 layouts (random indentation incl. tabs, comments, blank lines, key and section order, quoting, CRLF, two of them split into included files incl. nested includes); then every single-fault mutant of one rendering (missing brace, missing value, bad number, unknown unit, non-ASCII in number/unit, bad boolean, unterminated quote, unquoted string, bad enum, out-of-range, negative, list file that cannot be opened). distinct = distinct models; every model is non-trivial (it is compared field by field)", None, &["`#` and `\"` inside values are not generated (the syntax has no escape)", "LoadBalancer.lcg is excluded from the comparison (time-seeded)", "include paths are absolute (the loader resolves them against the process's working directory)", "for a missing closing brace any line at or after the fault is accepted (the error can only surface later)"]);
 }
